@@ -172,9 +172,9 @@ RefBuild(s) ==
     IF Cyclic(cfg) THEN Feed(a0, [RetEv("build", <<"circular", "build">>, NoneRes) EXCEPT !.path = CyclePathOf(cfg)])
     ELSE IF Conflict(cfg) THEN Feed(a0, RetEv("build", <<"lifetimeConflict", "build">>, NoneRes))
     ELSE IF Missing(cfg) THEN Feed(a0, RetEv("build", <<"notfound", "build">>, NoneRes))
-    ELSE LET eager == {id \in LiveRegIds(cfg) : (LifeOf(cfg, id) = "singleton" /\ Reg(cfg, id).shape # "inst")
+    ELSE LET eager == {id \in LiveRegIds(cfg) : (LifeOf(cfg, id) = "singleton" /\ Reg(cfg, id).shape \notin {"inst", "instv"})
                                              \/ (LifeOf(cfg, id) = "scoped" /\ IsInit(Reg(cfg, id)))}
-             ivs == SetToSeq({i \in DOMAIN cfg.regs : cfg.regs[i].shape = "inst"})
+             ivs == SetToSeq({i \in DOMAIN cfg.regs : cfg.regs[i].shape \in {"inst", "instv"}})
              ai  == FeedAll(a0, [j \in DOMAIN ivs |-> [ev |-> "inst", reg |-> cfg.regs[ivs[j]].id, id |-> j]])
              r == RefEager(ai, eager)
          IN IF r.ok THEN Feed(r.a, RetEv("build", <<>>, NoneRes))
@@ -338,7 +338,7 @@ Emit == IF EmitOn THEN PrintT(<<"SCN", ToJson([cfg |-> st.cfg, ops |-> hist'])>>
 GuardsHold == bad = {}
 
 Inv_C01 == st.phase = "built" =>
-    \A id \in RegIds(st.cfg) : (LifeOf(st.cfg, id) = "singleton" /\ Reg(st.cfg, id).shape # "inst") =>
+    \A id \in RegIds(st.cfg) : (LifeOf(st.cfg, id) = "singleton" /\ Reg(st.cfg, id).shape \notin {"inst", "instv"}) =>
         /\ st.runs[id] = (IF LiveReg(st.cfg, id) THEN 1 ELSE 0)
         /\ \A o \in 1..NOuts(Reg(st.cfg, id)) : Cardinality({x \in st.sing : x[1] = id /\ x[2] = o}) =
                                                   (IF o \in Rm(Reg(st.cfg, id)) THEN 0 ELSE 1)
